@@ -143,6 +143,10 @@ def run(ctx):
         n_sp += onepass.splice_shape(ctx, m)
     move_to_front(ctx)
     reflected_eq(ctx)
+    from rules.common import check_default_returned
+    for _c in ('cacheutils.LRI', 'cacheutils.LRU'):
+        for _n in ('get', 'setdefault'):
+            check_default_returned(ctx, ctx.program, ctx.program.resolve(ctx.program.cls(_c), _n), recv=ctx.program.cls(_c))
     upd = ctx.program.func('cacheutils.LRI.update')
     onepass.sources_consumed(ctx, upd, [p_ for p_ in (upd.params[1:] + ([upd.node.args.kwarg.arg] if upd.node.args.kwarg else []))])
     if n_sp == 0:
